@@ -18,6 +18,7 @@ pub struct Stats {
     pub batch_cases: AtomicU64,
     pub below_k: AtomicU64,
     pub calls_with_duplicates: AtomicU64,
+    pub flood_undecodable: AtomicU64,
 }
 
 /// (binary rank, full rank, L) of the constraint matrix of the received set
@@ -37,6 +38,10 @@ pub fn oracle(gf: &Gf, K: usize, esis: &HashSet<u32>) -> (usize, usize, usize) {
     isis.sort_unstable();
     let (b, f) = rm::constraint_rank(&p, gf, &isis);
     (b, f, p.L)
+}
+
+fn p_l_of(K: usize) -> usize {
+    rm::params(K).L
 }
 
 pub fn decodable(gf: &Gf, K: usize, esis: &HashSet<u32>) -> bool {
@@ -86,7 +91,51 @@ pub fn pick_k(rng: &mut Rng, family: u64, kmax: usize) -> usize {
     }
 }
 
+/// Hostile family: the receiver is flooded with more than L symbols that are linearly dependent
+/// (repair ESIs whose LT rows coincide, found with the reference model), and only afterwards gets
+/// the symbols that complete the rank. The rank oracle decides every prefix as usual.
+fn gen_flood_case(seed: u64, idx: u64) -> Case {
+    let mut rng = Rng::derive(seed, 0x0212, idx);
+    let K = *rng.pick(&[1usize, 3, 7, 9, 10, 11, 12, 18, 20, 26]);
+    let p = rm::params(K);
+    // group repair ESIs by their LT row (as a set of intermediate-symbol indices)
+    let scan = 60_000u32;
+    let base = if rng.chance(1, 2) { K as u32 } else { rng.range(K as u64, (1 << 24) - scan as u64 - 1) as u32 };
+    let mut classes: std::collections::HashMap<Vec<usize>, Vec<u32>> = std::collections::HashMap::new();
+    for e in base..base + scan {
+        let row = rm::enc_indices_mod2(&p, e as u64 + (p.Kp - K) as u64);
+        classes.entry(row).or_default().push(e);
+    }
+    let mut groups: Vec<Vec<u32>> = classes.into_values().filter(|g| g.len() >= 4).collect();
+    groups.sort();
+    rng.shuffle(&mut groups);
+    // few classes => rank far below L however many symbols arrive
+    let nclasses = rng.range(1, (K as u64).min(6)) as usize;
+    let mut pool: Vec<u32> = groups.into_iter().take(nclasses).flatten().collect();
+    rng.shuffle(&mut pool);
+    let flood = (p.L + rng.below(12) as usize).min(pool.len());
+    let mut arrivals: Vec<u32> = pool[..flood].to_vec();
+    let mut used: HashSet<u32> = arrivals.iter().copied().collect();
+    // a few source symbols in between, then ordinary repair symbols until decodable (and beyond)
+    let kept = rng.below(K as u64) as usize;
+    for e in 0..kept as u32 {
+        if used.insert(e) {
+            arrivals.push(e);
+        }
+    }
+    for _ in 0..K + 12 {
+        let e = rand_repair(&mut rng, K, &used);
+        used.insert(e);
+        arrivals.push(e);
+    }
+    let batch_first = if rng.chance(1, 2) { flood.max(1) } else { 1 };
+    Case { K, T: rng.range(1, 3) as usize, threshold: *rng.pick(&[0u32, 250, u32::MAX]), data_seed: rng.next(), arrivals, batch_first }
+}
+
 pub fn gen_case(seed: u64, idx: u64, kmax: usize) -> Case {
+    if idx % 40 == 39 {
+        return gen_flood_case(seed, idx);
+    }
     let mut rng = Rng::derive(seed, 0x0202, idx);
     let family = match idx % 8 {
         0 | 1 | 2 => 0,
@@ -215,6 +264,9 @@ pub fn run_case(ctx: &Ctx, gf: &Gf, c: &Case, replay: J, st: &Stats) {
                 h.u64(e as u64);
             }
             ctx.nontrivial(h.get());
+            if !want && have.len() >= p_l_of(K) {
+                st.flood_undecodable.fetch_add(1, Relaxed);
+            }
             if !want {
                 st.undecodable_ge_k.fetch_add(1, Relaxed);
             } else if have.len() == K {
@@ -299,9 +351,10 @@ pub fn run(ctx: &Ctx) -> i32 {
     let q = ctx.args.ex("n").is_none();
     ctx.floor("truly_undecodable_prefixes_with_at_least_K_symbols", st.undecodable_ge_k.load(Relaxed), if q { 50 } else { 1 });
     ctx.floor("sets_where_gf2_only_attempt_must_fall_back_to_the_full_solve", st.fallback_cases.load(Relaxed), if q { 50 } else { 1 });
+    ctx.floor("undecodable_prefixes_holding_at_least_L_symbols_(flood_of_dependent_symbols)", st.flood_undecodable.load(Relaxed), if q { 50 } else { 0 });
     ctx.floor("prefix_decisions", st.decisions.load(Relaxed), if q { 10000 } else { 10 });
     ctx.finish(
-        "arrival sequences of distinct encoder-produced symbols aimed at the decision boundary: 0..K-1 surviving source symbols + repair ESIs (small, uniform over [K,2^24), top of range) up to exactly K symbols, then extras one by one; one third of the cases start with one batch of K+H..K+H+3 symbols (reaches the GF(2)-only attempt; sets whose binary rows are rank deficient while the full matrix has rank L are counted as fallback cases); K in 1..60, every Table-2 K' and K'+-1 up to kmax, uniform up to kmax; T 1..4; sparse threshold {0,250,inf}. After EVERY call: Some iff (all source present or rank over GF(256) of [LDPC; HDPC; LT rows of received+padding ISIs] = L) computed by the independent reference model; Some implies the right bytes. non-trivial = prefix with >= K distinct symbols and not all-source; distinct by (K, ESI set)",
+        "arrival sequences of distinct encoder-produced symbols aimed at the decision boundary: 0..K-1 surviving source symbols + repair ESIs (small, uniform over [K,2^24), top of range) up to exactly K symbols, then extras one by one; one third of the cases start with one batch of K+H..K+H+3 symbols (reaches the GF(2)-only attempt; sets whose binary rows are rank deficient while the full matrix has rank L are counted as fallback cases); one case in 40 floods the decoder with L..L+11 repair symbols taken from at most 6 classes of ESIs with identical LT rows (rank far below L however many arrive) before the symbols that complete the rank; K in 1..60, every Table-2 K' and K'+-1 up to kmax, uniform up to kmax; T 1..4; sparse threshold {0,250,inf}. After EVERY call: Some iff (all source present or rank over GF(256) of [LDPC; HDPC; LT rows of received+padding ISIs] = L) computed by the independent reference model; Some implies the right bytes. non-trivial = prefix with >= K distinct symbols and not all-source; distinct by (K, ESI set)",
         &["rank oracle = harness's independent model of RFC 6330 5.3.3.3 / 5.3.5 (golden tables; GF(2) elimination on bitsets then GF(256) elimination of the HDPC residual)", "symbol payloads are those of the crate's encoder (whose RFC conformance is C04's business)"],
         vec![],
     )
